@@ -260,6 +260,7 @@ theorem defect_eq_zero_iff (Y : YCongr L) (it : Item) (hst : Structural (o := o)
   obtain ⟨hv, hxr, hlq, hc0⟩ := hst
   have hxr' := ((sigValid_ok_iff it.sg).1 hv).1
   simp only [isXCoord, Bool.and_eq_true] at hxr'
+  have hrng : 0 ≤ it.sg.r ∧ it.sg.r < o.p := by simpa using hxr'.1
   obtain ⟨R, hR⟩ := Option.isSome_iff_exists.1 hxr'.2
   obtain ⟨Q, hQ⟩ := Option.isSome_iff_exists.1 hlq
   obtain ⟨hR0, hRx, hRy⟩ := L.liftX_some _ _ hR
@@ -272,7 +273,7 @@ theorem defect_eq_zero_iff (Y : YCongr L) (it : Item) (hst : Structural (o := o)
     refine ⟨hv, Q, hQ, hc0, ?_⟩
     have hK0 : L.abs (o.dmul (o.n - challengeInt o prm it.msg it.xQ it.sg.r) Q it.sg.s o.gen) ≠ 0 :=
       hK ▸ hR0
-    rw [assertCore_ok_iff]
+    rw [assertCore_ok_iff _ _ _ _ hrng]
     refine ⟨?_, ?_, ?_⟩
     · cases hz : o.isZero (o.dmul (o.n - challengeInt o prm it.msg it.xQ it.sg.r) Q it.sg.s o.gen) with
       | false => rfl
@@ -281,7 +282,7 @@ theorem defect_eq_zero_iff (Y : YCongr L) (it : Item) (hst : Structural (o := o)
     · rw [L.x_congr hK hK0]; exact hRx
   · rintro ⟨_, Q', hQ', _, hcore⟩
     rw [hQ] at hQ'; cases hQ'
-    obtain ⟨hz, he, hx⟩ := (assertCore_ok_iff _ Q it.sg.r it.sg.s).1 hcore
+    obtain ⟨hz, he, hx⟩ := (assertCore_ok_iff _ Q it.sg.r it.sg.s hrng).1 hcore
     have hK0 : L.abs (o.dmul (o.n - challengeInt o prm it.msg it.xQ it.sg.r) Q it.sg.s o.gen) ≠ 0 := by
       intro h0; rw [(L.isZero_iff _).2 h0] at hz; cases hz
     rcases (L.x_eq_iff _ R hK0 hR0).1 (hx.trans hRx.symm) with h | h
